@@ -176,8 +176,35 @@ def _settyped(prog: Prog, fn: Fn, e: ast.AST) -> bool:
     return any(a.kind == "set" for a in t.alts())
 
 
+class _FactsView:
+    """facts_for with single-definition locals that name a length written out: `n = len(xs)` ... `n == 2` is `len(xs) == 2`."""
+
+    def __init__(self, prog: Prog, fn: Fn, fl):
+        self.fl = fl
+        self.alias: dict[str, str] = {}
+        for nm, defs in prog._all_local_defs(fn).items():
+            if len(defs) == 1 and defs[0][0] in ("assign", "annassign", "walrus"):
+                v = getattr(defs[0][1], "value", None)
+                if isinstance(v, ast.Call) and isinstance(v.func, ast.Name) and v.func.id == "len" and len(v.args) == 1:
+                    self.alias[nm] = u(v)
+
+    def __getattr__(self, item):
+        return getattr(self.fl, item)
+
+    def facts_for(self, node):
+        facts = set(self.fl.facts_for(node))
+        if self.alias:
+            for t, p in list(facts):
+                t2 = t
+                for nm, txt in self.alias.items():
+                    t2 = re.sub(rf"(?<![\w.]){re.escape(nm)}(?![\w(])", txt, t2)
+                if t2 != t:
+                    facts.add((t2, p))
+        return facts
+
+
 def scan_function(prog: Prog, fn: Fn) -> Iterator[Site]:
-    fl = flow(prog, fn)
+    fl = _FactsView(prog, fn, flow(prog, fn))
     for n in prog.walk_fn(fn):
         # ---- positional subscripts ------------------------------------------------------
         if isinstance(n, ast.Subscript) and isinstance(n.ctx, ast.Load) and not isinstance(n.slice, ast.Slice):
